@@ -264,9 +264,15 @@ Definition discrete_SIR (g : graph) (R : rules) (trec : option (node -> nat -> b
     (ord : nat -> list node -> list node)
     (i0 r0 : option (list node)) (rho : option Q) (tmin : Q) (tmax : xtime) (full : bool) (fuel : nat)
   : samp dout :=
-  with_initial g i0 rho (fun l =>
-    dloop g R trec ord tmin tmax full l (opt_list r0) fuel O tmin
-          (init_state g tmin full l (opt_list r0))).
+  (* if rho is not None and initial_infecteds is not None: raise EoNError
+     if rho is not None and initial_recovereds is not None: raise EoNError *)
+  match rho, r0 with
+  | Some _, Some _ => Fail EoNError
+  | _, _ =>
+    with_initial g i0 rho (fun l =>
+      dloop g R trec ord tmin tmax full l (opt_list r0) fuel O tmin
+            (init_state g tmin full l (opt_list r0)))
+  end.
 
 (* basic_discrete_SIR forwards (by keyword) to discrete_SIR with
    _simple_test_transmission_, args = (p,), test_recovery left at None *)
